@@ -33,6 +33,7 @@ Gen<Case> makeGraphGen(const Cfg &cfg) {
     int xmax = (int)cfgInt(cfg, "xmax", 12);
     std::string extra = cfgGet(cfg, "extra", "");
     int subsets = (int)cfgInt(cfg, "subsets", 0);
+    bool conc = cfgInt(cfg, "conc", 0) != 0;
     return gen::exec([=]() {
         std::string cl = *gen::resize(kNominalSize, gen::elementOf(classes));
         auto parts = splitList(cl, ':');
@@ -47,6 +48,11 @@ Gen<Case> makeGraphGen(const Cfg &cfg) {
         }
         int n = *gen::resize(kNominalSize, gen::weightedOneOf<int>({{1, gen::just(nmin)}, {6, uni(nmin, std::min(nmax, 5) + 1)}, {4, uni(nmin, nmax + 1)}}));
         c.set("n", S(n));
+        if (conc) {
+            c.set("threads", S(*wel({{1, 2}, {2, 4}, {1, 8}})));
+            c.set("rounds", S(*uni(1, 4)));
+            c.set("orderkey", S(*uni(0, 50)));
+        }
         if (pads && *uni(0, 4) == 0) {
             c.set("pad_front", S(*uni(0, 3)));
             c.set("pad_back", S(*uni(0, 3)));
